@@ -244,9 +244,25 @@ type c17case struct {
 	Seq     []string `json:"seq,omitempty"`     // opener sequence / transmitted paths
 	K       int      `json:"k,omitempty"`       // opener: the link appears before operation K
 	Recheck []string `json:"recheck,omitempty"` // accelerated scan: re-check paths
+
+	// Intra-operation legs (intra-transition, intra-scan, intra-opener): the
+	// swap happens inside the operation, at hook point At.
+	Tree    *node  `json:"tree,omitempty"`
+	Plan    plan   `json:"plan,omitempty"`
+	Cfg     config `json:"cfg,omitempty"`
+	Env     string `json:"env,omitempty"`
+	At      *point `json:"at,omitempty"`
+	Variant string `json:"variant,omitempty"` // "leaf": the object named by the point; "parent": its parent directory
 }
 
 func (c c17case) key() string {
+	if strings.HasPrefix(c.Leg, "intra-") {
+		at := "record"
+		if c.At != nil {
+			at = c.At.String()
+		}
+		return fmt.Sprintf("leg=%s tree=%s plan=%s owner=%s env=%s seq=%v op=%s swap=%s at=[%s]", c.Leg, c.Tree, c.Plan, c.Cfg.Owner, c.Env, c.Seq, c.Op, c.Variant, at)
+	}
 	return fmt.Sprintf("leg=%s link=%s abs=%v when=%s op=%s path=%s new=%s seq=%v k=%d recheck=%v", c.Leg, c.Link, c.Abs, c.When, c.Op, c.Path, c.New, c.Seq, c.K, c.Recheck)
 }
 
@@ -435,6 +451,10 @@ func runC17(w *world, c c17case, verbose func(string, ...any)) (what string, cla
 		if verbose != nil {
 			verbose(f, a...)
 		}
+	}
+	if strings.HasPrefix(c.Leg, "intra-") {
+		res := runC17Intra(w, c, verbose)
+		return res.what, res.class, res.swapped
 	}
 	tree := tree17()
 	infra(w.reset())
@@ -800,10 +820,10 @@ func TestC17(t *testing.T) {
 		r.Set("detector_selftest_events", len(seen))
 	}
 
-	r.Rule(fmt.Sprintf("one fixed root (a/{x,y,l,d/y,s/{x,y,l,d/y}}, b) in which one path component is, or becomes between the scan and the operation, a symbolic link (relative and absolute) to a canary outside the root; %d cases: Transition (11 operations x {a/, a/s/} x every link position on the planned path incl. the leaf x {link appears after the scan: the directory/file itself is moved out and becomes the canary, so inodes, times and the cache all match; link already there at scan time} + removal/replacement of a directory that is or contains the link), core.Scan (cold in 3 link modes, warm, accelerated with 4 re-check sets x 5 link positions), filesystem.Opener (every sequence of <=3 (thorough: <=4) opens over 5 paths that crosses the link x link appearing before open K), rsync.Transmit, rsync receiver (bases across the link), and a real local endpoint (Scan, Stage with copy-from-root shortcut, reception, Supply, Transition). Non-trivial = the operation was aimed across the link (for accelerated scans: the link position was marked dirty); distinct by all case parameters", len(cases)))
+	r.Rule(fmt.Sprintf("one fixed root (a/{x,y,l,d/y,s/{x,y,l,d/y}}, b) in which one path component is, or becomes between the scan and the operation, a symbolic link (relative and absolute) to a canary outside the root; %d cases: Transition (11 operations x {a/, a/s/} x every link position on the planned path incl. the leaf x {link appears after the scan: the directory/file itself is moved out and becomes the canary, so inodes, times and the cache all match; link already there at scan time} + removal/replacement of a directory that is or contains the link), core.Scan (cold in 3 link modes, warm, accelerated with 4 re-check sets x 5 link positions), filesystem.Opener (every sequence of <=3 (thorough: <=4) opens over 5 paths that crosses the link x link appearing before open K), rsync.Transmit, rsync receiver (bases across the link), and a real local endpoint (Scan, Stage with copy-from-root shortcut, reception, Supply, Transition). Intra-operation legs: for every quick-tier tree x single-change plan x {no ownership, DefaultOwner+Group} (thorough: also EXDEV staging), every tree scanned in 2 link modes, and every Opener sequence of <=2 opens, a recording run yields the hook points; then one run per point x {leaf, parent} in which, at that point and before the real syscall proceeds, the named object (or its parent directory) is moved aside and replaced by a link to a canary file/directory of the matching type (canary modes 0755/0644, owner root, so chmod/chown show); only canary integrity is judged there. Non-trivial = the operation was aimed across the link (for accelerated scans: the link position was marked dirty; for intra-operation runs: the swap was carried out); distinct by all case parameters", len(cases)))
 	r.Assume("the canary is observed by inotify (IN_ALL_EVENTS on every directory and file; events are queued by the kernel inside the causing syscall), by a strict lstat+bytes snapshot, and by the verif hook points (descriptor resolves into the canary)",
 		"stat/lstat of the link itself is not an access outside the root; O_PATH opens and stat calls are invisible to inotify",
-		"link swaps happen between operations, not inside one (kernel-level TOCTOU windows inside a single operation are excluded)",
+		"link swaps happen between operations or, in the intra-operation legs, at hook points immediately before a filesystem call; windows inside the kernel during one call are not explored",
 		"Opener handles opened before a directory was replaced keep addressing the old (in-root, renamed aside) directory; failure of a crossing open is demanded only when the link existed before the first open")
 
 	vr.Parallel(len(cases), func(i int) {
@@ -820,6 +840,42 @@ func TestC17(t *testing.T) {
 		}
 	})
 	r.Sample(cases[0])
+
+	// Intra-operation legs: per group one recording run, then one run per hook
+	// point and variant with the swap performed at that point.
+	groups := intraGroups(vr.Thorough())
+	r.Set("intra_groups", len(groups))
+	vr.Parallel(len(groups), func(gi int) {
+		g := groups[gi]
+		w := <-pool
+		defer func() { pool <- w }()
+		judge := func(c c17case) intraResult {
+			res := runC17Intra(w, c, nil)
+			r.Case(c.key(), res.swapped)
+			r.Outcome(c.Leg + ": " + res.class)
+			r.Add("cases_"+c.Leg, 1)
+			if res.what != "" {
+				cc := c
+				r.Violate(c.key(), res.what, cc, func() bool { return runC17Intra(w, cc, nil).what != "" })
+			}
+			return res
+		}
+		rec := judge(g)
+		for _, p := range rec.log {
+			if !strings.HasPrefix(p.Path, "root/") {
+				continue // staging area, the root itself, or its parent
+			}
+			for _, variant := range []string{"leaf", "parent"} {
+				c := g
+				at := p
+				c.At, c.Variant = &at, variant
+				judge(c)
+				if gi%211 == 0 && variant == "leaf" && p.Op == "openat" {
+					r.Sample(c)
+				}
+			}
+		}
+	})
 	for _, leg := range []string{"scan", "opener", "transmit", "receive", "endpoint"} {
 		for _, c := range cases {
 			if c.Leg == leg {
